@@ -9,7 +9,8 @@ Import ListNotations.
 Open Scope Z_scope.
 
 Inductive pbin := PAdd | PSub | PMult | PFloorDiv | PMod | PLShift | PRShift
-                | PBitAnd | PBitOr | PBitXor.
+                | PBitAnd | PBitOr | PBitXor
+                | PTrueDiv.      (* a / b : the result is a float, never an int value *)
 Inductive pcmp := PEq | PNotEq | PLt | PLtE | PGt | PGtE.
 Inductive pexpr :=
   | PConst (z : Z)
@@ -42,6 +43,7 @@ Definition py_binop (o : pbin) (a b : Z) : option Z :=
   | PBitAnd => Some (Z.land a b)
   | PBitOr => Some (Z.lor a b)
   | PBitXor => Some (Z.lxor a b)
+  | PTrueDiv => None            (* no integer result (7 / 2 = 3.5, 8 / 2 = 4.0) *)
   end.
 Definition py_cmp (o : pcmp) (a b : Z) : bool :=
   match o with
